@@ -89,7 +89,9 @@ class FuncOp(IRDLOperation, AssemblyPrintable):
         (name, input_types, return_types, region, extra_attrs, arg_attrs, res_attrs) = (
             parse_func_op_like(
                 parser,
-                reserved_attr_names=("sym_name", "function_type", "sym_visibility"),
+                # a visibility that is not spelled as a keyword stays in the attribute dictionary
+                reserved_attr_names=("sym_name", "function_type")
+                + (("sym_visibility",) if visibility is not None else ()),
             )
         )
         if arg_attrs:
@@ -102,9 +104,16 @@ class FuncOp(IRDLOperation, AssemblyPrintable):
         return func
 
     def print(self, printer: Printer):
-        if self.sym_visibility:
+        reserved_attr_names = ["sym_name", "function_type"]
+        # only the visibilities the parser knows as keywords can be printed as one
+        if self.sym_visibility and self.sym_visibility.data in (
+            "public",
+            "nested",
+            "private",
+        ):
             visibility = self.sym_visibility.data
             printer.print_string(f" {visibility}")
+            reserved_attr_names.append("sym_visibility")
 
         print_func_op_like(
             printer,
@@ -112,7 +121,7 @@ class FuncOp(IRDLOperation, AssemblyPrintable):
             self.function_type,
             self.body,
             self.attributes,
-            reserved_attr_names=("sym_name", "function_type", "sym_visibility"),
+            reserved_attr_names=reserved_attr_names,
         )
 
     def print_assembly(self, printer: AssemblyPrinter) -> None:
